@@ -93,3 +93,55 @@ Definition segments (s : ustring) : list ustring := split_dot s.
 (* a is s itself or an ancestor of s *)
 Definition ancestor_or_self (a s : ustring) : Prop := exists rest, segments s = segments a ++ rest.
 Definition proper_ancestor (a s : ustring) : Prop := exists rest, rest <> [] /\ segments s = segments a ++ rest.
+
+(* ---------------------------------------------------------------- *)
+(* The selector grammar (what SELECTOR_REGEX is meant to recognise):
+     selector  ::= "id" | first ("." rest)*
+     first     ::= keychar{3,250}              lower-case letters, digits, '_' , '-'
+     rest      ::= "[" digit+ "]" | keychar'{1,250}   keychar' = keychar, plus A-Z when upper = true
+   and, because the code uses re.match with `$`, the same followed by one '\n'. *)
+
+Definition lower_key_char (x : N) : Prop :=
+  (97 <= x <= 122 \/ 48 <= x <= 57 \/ x = 95 \/ x = 45)%N.
+Definition upper_char (x : N) : Prop := (65 <= x <= 90)%N.
+Definition digit_char (x : N) : Prop := (48 <= x <= 57)%N.
+
+Definition key_seg (upper : bool) (lo hi : nat) (s : ustring) : Prop :=
+  lo <= length s <= hi /\ Forall (fun x => lower_key_char x \/ (upper = true /\ upper_char x)) s.
+
+Definition index_seg (s : ustring) : Prop :=
+  exists ds, ds <> [] /\ Forall digit_char ds /\ s = 91%N :: ds ++ [93%N].
+
+Definition selector_grammar (upper : bool) (s : ustring) : Prop :=
+  s = [105%N; 100%N] (* "id" *) \/
+  exists first rest,
+    key_seg false 3 250 first /\
+    Forall (fun g => index_seg g \/ key_seg upper 1 250 g) rest /\
+    s = join_dot (first :: rest).
+
+Definition selector_text (upper : bool) (s : ustring) : Prop :=
+  selector_grammar upper s \/ exists s', s = s' ++ [10%N] /\ selector_grammar upper s'.
+
+(* ---------------------------------------------------------------- *)
+(* Vocabulary of the C07 laws                                        *)
+
+(* marking identifiers that can label anything: the empty string is not one *)
+Definition real (ms : list ustring) : list ustring := filter nonempty ms.
+
+Definition pair_eqb (a b : pair) : bool := ustr_eqb (fst a) (fst b) && ustr_eqb (snd a) (snd b).
+Definition mem_pair (p : pair) (l : list pair) : bool := existsb (pair_eqb p) l.
+
+(* P minus Q *)
+Definition minus (P Q : list pair) : list pair := filter (fun p => negb (mem_pair p Q)) P.
+
+(* The granular markings of an object are well kinded when every marking_ref
+   is a marking-definition id and no lang tag is one (what the code itself
+   assumes when it sorts identifiers into marking_ref / lang with is_marking). *)
+Definition well_kinded (gs : list gm) : Prop :=
+  forall g, In g gs ->
+    (nonempty (g_ref g) = true -> is_marking (g_ref g) = true) /\
+    (nonempty (g_lang g) = true -> is_marking (g_lang g) = false).
+
+(* which pairs clear_markings(selectors, marking_ref, lang) takes away *)
+Definition cleared (sels : list ustring) (marking_ref lang : bool) (p : pair) : bool :=
+  mem_ustr (fst p) sels && (if is_marking (snd p) then marking_ref else lang).
